@@ -300,7 +300,7 @@ func (h *engHist) seriesObs(tag string) {
 }
 
 func runEngineHistory(c *hx.Ctx, r *hx.Rng, idx int, prelude bool) error {
-	h := &engHist{c: c, r: r, idx: idx, dir: engx.ScratchDir("c13eng"), next: 1, rows: map[uint64]map[string]string{},
+	h := &engHist{c: c, r: r, idx: idx, dir: engx.FastScratchDir("c13eng"), next: 1, rows: map[uint64]map[string]string{},
 		series: map[uint64]map[string]bool{}, memDel: map[string]bool{}, diskDel: map[string]bool{}, fin: map[uint64]func() error{}, stopped: map[uint64]bool{}}
 	engine.VerifSlotBase = engx.BaseTime
 	defer func() { os.RemoveAll(h.dir) }()
